@@ -6,11 +6,13 @@
              if node is None or not isinstance(node, ast.Call): return node
              if not isinstance(node.func, ast.Attribute):       return node
              if node.func.attr not in function_names:           return node
-             return function_call(node.func.attr, [node.func.value] + node.args)
+             call = function_call(node.func.attr, [node.func.value] + node.args)
+             call.keywords = node.keywords                      (* F39 *)
+             return call
 
    - bottom-up: the test is made on the *visited* node (its [func] has already been transformed);
-   - [function_call] builds [Call (Name op) args [] []]: the keywords of a rewritten method call
-     are dropped (modelled faithfully);
+   - the keywords of a rewritten method call stay with the call (F39; before that fix
+     [function_call] alone built [Call (Name op) args [] []] and they were silently dropped);
    - every other node class is handled by [generic_visit] ([map_children_t]);
    - the visitor cannot raise (no indexing, no attribute access that is not guarded by an
      [isinstance]), hence a total function [expr -> expr].
@@ -32,7 +34,7 @@ Section Ext.
         let kwv' := map ext_with kwv in
         match f' with
         | Attr v m =>
-            if in_names ops m then function_call m (v :: args')
+            if in_names ops m then Call (Name m) (v :: args') kwn kwv'
             else Call f' args' kwn kwv'
         | _ => Call f' args' kwn kwv'
         end
@@ -44,7 +46,8 @@ Definition ext : expr -> expr := ext_with ext_default_ops.
 
 (* ---------- the hypothesis of the semantic theorem, as a boolean predicate ----------
    "method-form operator calls carry no keywords": the form [seq.Op(args...)] the property
-   speaks about.  (The code drops the keywords of a method call it rewrites.) *)
+   speaks about.  (The keywords are kept - F39 - but the reference semantics gives the method form and the
+   function form with keywords to two different backend hooks, so the semantic theorem stays with this form.) *)
 
 (* [p] holds of every child node, in ast.iter_fields order *)
 Definition all_children (p : expr -> bool) (e : expr) : bool :=
